@@ -96,6 +96,8 @@ func init() {
 		"math.Float32bits":     hFloatBits,
 		"math.Float64frombits": func(m *Machine, fr *frame, fn *ssa.Function, a []Value) Value { return m.C.FpFromBits(a[0].(T)) },
 		"math.Float32frombits": func(m *Machine, fr *frame, fn *ssa.Function, a []Value) Value { return m.C.FpFromBits(a[0].(T)) },
+		"math.Round": func(m *Machine, fr *frame, fn *ssa.Function, a []Value) Value { return m.C.FpRound(a[0].(T), true) },
+		"math.Trunc": func(m *Machine, fr *frame, fn *ssa.Function, a []Value) Value { return m.C.FpRound(a[0].(T), false) },
 		// ---- fmt / log / runtime ----
 		"fmt.Sprintf":   hSprintf,
 		"fmt.Errorf":    func(m *Machine, fr *frame, fn *ssa.Function, a []Value) Value { return m.makeError(m.sprintf(fr, a[0], a[1].(Slice))) },
